@@ -213,6 +213,13 @@ Proof.
   - eapply (twf_change s s c p0 p); [intros f Hf; by rewrite Hp in Hf|done|done].
   - cbn in Hc. apply andb_true_iff in Hc as [Hy Hc]. destruct y; try done; cbn [twf]; by apply IH.
 Qed.
+Lemma twf_app_frame s c p pre x r : forallb chain pre = true -> isaw x = false ->
+  twf s c p (pre ++ x :: r) = twf s c (Some x) r.
+Proof.
+  revert p; induction pre as [|y pre IH]; intros p Hc Hx; cbn [app].
+  - cbn [twf]. by destruct x.
+  - cbn in Hc. apply andb_true_iff in Hc as [Hy Hc]. destruct y; try done; cbn [twf]; by apply IH.
+Qed.
 Lemma tw_same s s' c f : toks s' = toks s -> s'.(futs) = s.(futs) ->
   np (is_unpark c) s' = np (is_unpark c) s -> np (is_wake (WTask c)) s' = np (is_wake (WTask c)) s -> tw s' c f = tw s c f.
 Proof. intros H1 H2 H3 H4. unfold tw. by rewrite (tokb_toks s s' c H1), H3, H4, (getf_futs s' s f H2). Qed.
@@ -250,7 +257,7 @@ Qed.
 Lemma poller_wf x rest f : pollall (x :: rest) = true -> pollfam x = Some f -> cntf (wf f) (x :: rest) >= 1.
 Proof.
   cbn. intros [H _]%andb_true_iff Hf. unfold adjok in H. rewrite Hf in H. destruct rest as [|y r]; [done|].
-  assert (wf f y = true) by (destruct y; try done). cbn. rewrite H0. destruct (wf f x); lia.
+  assert (wf f y = true) by (destruct y; try done; by destruct pc). cbn. rewrite H0. destruct (wf f x); lia.
 Qed.
 Lemma aw_in_rest_absurd s a fr rest f : Inv_op s -> stacks s !! a = Some (fr :: rest) -> opfr fr = true ->
   FAwRet f ∈ rest \/ FPark f ∈ rest -> False.
@@ -308,7 +315,7 @@ Section Pres3.
     all: try match goal with k : kont |- _ => destruct k end.
     (* a poll frame sits on its continuation: the no-continuation branch of pop_cont is impossible *)
     all: try (match goal with Hnc : nocont ?r |- _ => exfalso; cbn [pollall adjok pollfam] in Hpo; apply andb_true_iff in Hpo as [Hadj _];
-              destruct r as [|[] ?]; try done end).
+              destruct r as [|[] ?]; try done; try (match goal with pc : ypc |- _ => destruct pc end; done) end).
     all: match goal with |- forall c st, stacks ?s1 !! c = Some st -> _ => eapply (twf_update s s1 a _ _ Hst ltac:(solve_stacks)); [ | |exact I1] end.
     all: try match goal with |- context [opt_wake ?o] => destruct o eqn:Eo end.
     all: cbn [opt_wake app].
@@ -339,11 +346,13 @@ Section Pres3.
                   assert (Hrn : (getf s f).(res) = FNone) by
                     (first [ eassumption | pose proof (I2 a _ _ Hst ltac:(left)) as Hx; cbn in Hx; by apply bool_decide_eq_true in Hx ]);
                   cbn [pollall adjok pollfam] in Hpo; apply andb_true_iff in Hpo as [Hadj Hpo];
-                  destruct r0 as [|y r1]; [done|]; destruct y; try done; cbn [iscont] in Hadj; apply bool_decide_eq_true in Hadj; subst;
+                  destruct r0 as [|y r1]; [done|]; destruct y; try done; try (match goal with pc : ypc |- _ => destruct pc; try done end);
+                  cbn [iscont] in Hadj; apply bool_decide_eq_true in Hadj; subst;
                   [ (* FAwRet f *) cbn [twf]; apply orb_true_iff; right; apply cell_tw;
                     assert (Hlt : f < length (futs s)) by (eapply (wf_in_range s a _ (FAwRet f) f HF Hst); [right; left|cbn; by apply bool_decide_eq_true]);
                     eapply cell_futs; [|apply (cell_store s f a Hlt Hrn)]; reflexivity
-                  | (* FDropRet f k *) cbn [twf]; apply twf_noaw, isaw_opfr; destruct (HP a _ Hst) as [_ Hcnt]; cbn in Hcnt; lia ] end end end).
+                  | (* FDropRet f k *) cbn [twf]; apply twf_noaw, isaw_opfr; destruct (HP a _ Hst) as [_ Hcnt]; cbn in Hcnt; lia
+                  | (* FY YPsfret *) cbn [twf]; apply twf_noaw, isaw_opfr; destruct (HP a _ Hst) as [_ Hcnt]; cbn in Hcnt; lia ] end end end).
     (* own stack, fire: the wake frames are pushed on top *)
     all: try (lazymatch goal with Hst : stacks _ !! _ = Some (FFire ?e0 :: _) |- twf ?s1 _ None _ = true =>
               cbn [twf] in Hok0; eapply (twf_app_chain s1 a None (Some (FFire e0))); [apply chain_wake_frames|done|];
@@ -353,6 +362,13 @@ Section Pres3.
               | intros Hp; left; eapply posb_mono; [eapply np_mono; [exact Hst|solve_stacks|rewrite cntf_app; cbn; lia]|exact Hp]
               | intros Hp; left; eapply posb_mono; [eapply np_mono; [exact Hst|solve_stacks|rewrite cntf_app; cbn; lia]|exact Hp]
               | intros Hc; left; exact (cell_same s s1 a fq eq_refl Hc) ] end).
+    (* own stack, a oneshot fires (future_sync): the wake frames are pushed on top *)
+    all: try (lazymatch goal with Hst : stacks _ !! _ = Some (?fr0 :: ?r) |- twf ?s1 _ None (wake_frames ?ws ++ ?r) = true =>
+              cbn [twf] in Hok0; eapply (twf_app_chain s1 a None (Some fr0)); [apply chain_wake_frames|done|];
+              eapply (fun Hp Hs => twf_change s s1 a _ _ _ Hp Hs Hok0); [done|] end).
+    all: try (lazymatch goal with |- twf ?s1 _ None (wake_frames ?ws ++ ?x :: ?r) = true =>
+              rewrite (twf_app_frame s1 a None (wake_frames ws) x r (chain_wake_frames _) eq_refl);
+              cbn [twf] in Hok0; eapply (fun Hp Hs => twf_change s s1 a _ _ _ Hp Hs Hok0) end).
     (* own stack, generic: the frame above the first await frame changes, the state changes *)
     all: try (lazymatch goal with |- twf _ _ None _ = true =>
               try match goal with |- context [opt_wake ?o] => destruct o eqn:Eo end;
@@ -401,6 +417,8 @@ Section Pres3.
                           | left; eapply cell_futs; [reflexivity|]; by apply cell_setf_ne ] end ] end).
     (* tokens *)
     all: try (lazymatch goal with Hst : stacks _ !! _ = Some (FROpark _ :: _) |- forall f, FAwRet f ∈ _ \/ _ -> _ =>
+              intros fq Hin _; exfalso; eapply aw_in_rest_absurd; [exact HP|exact Hst|reflexivity|exact Hin] end).
+    all: try (lazymatch goal with Hst : stacks _ !! _ = Some (FY _ _ _ _ :: _) |- forall f, FAwRet f ∈ _ \/ _ -> _ =>
               intros fq Hin _; exfalso; eapply aw_in_rest_absurd; [exact HP|exact Hst|reflexivity|exact Hin] end).
     all: try (lazymatch goal with Hst : stacks _ !! _ = Some (FUnpark _ :: _) |- _ =>
               first [ intros fq _ Htw; apply (tw_unpark s a _ _ a fq Hst); [by eapply lookup_lt_Some|exact Htw]
